@@ -615,43 +615,53 @@ Theorem application_help_fits_plain : forall W f sty app_name display version go
 Proof. exact application_help_fits_plain_lemma. Qed.
 Print Assumptions application_help_fits_plain.
 
-(* The ANSI formatter, the VISIBLE text (strip_sgr: SGR sequences removed).  PARTIAL: for layouts whose labels and texts
-   hold neither ESC nor a backslash (good_layout; the hypothesis of MarkupLemmas.colorize_lockstep) the page with the SGR
-   sequences removed IS the page of the plain formatter with the same style table and stack (as_plain) ... *)
+(* The ANSI formatter, the VISIBLE text (strip_sgr: SGR sequences removed).
+   For EVERY style table, stack and ESC-free message the decorated colorize succeeds exactly when the undecorated one does, with
+   the same stack, and its visible text v is obtained from the undecorated output BEFORE unescape (wout_of) by deleting characters
+   other than the line break: all the SGR sequences can do is keep a backslash apart from its "<". *)
+Theorem colorize_ansi_visible : forall sty sk m sk' o1, no_esc m -> colorize sty true sk m = Ok (sk', o1) ->
+  colorize sty false sk m = Ok (sk', plain_of sty (ends_with_bsl m) m)
+  /\ exists v, strips o1 v /\ deletes (wout_of sty (ends_with_bsl m) m) v.
+Proof. exact colorize_visible. Qed.
+Print Assumptions colorize_ansi_visible.
+(* Hence page_fits_null for the ANSI formatter, for layouts without ESC whose LABELS hold no backslash (clean_layout; the
+   texts may hold backslashes: json.dumps of a string default, the escaped placeholder of an argument named like a style):
+   whenever the page renders, the visible text of every line is at most W - 1 long.  The condition on the labels is needed:
+   page_fits_ansi_refuted below. *)
+Theorem page_fits_ansi_visible : forall W f l s, is_ansi f -> (1 <= W)%Z -> one_line_labels l -> clean_layout l ->
+  render_page W f l = Ok s -> Forall (fun ln => (zlen (strip_sgr ln) <= W - 1)%Z) (split_on 10%N s).
+Proof. exact page_fits_ansi_clean_lemma. Qed.
+Print Assumptions page_fits_ansi_visible.
+(* For layouts without ESC and without ANY backslash (good_layout; the hypothesis of MarkupLemmas.colorize_lockstep) the page
+   with the SGR sequences removed IS the page of the plain formatter with the same style table and stack (as_plain). *)
 Theorem ansi_page_visible : forall W f l s, is_ansi f -> good_layout l -> render_page W f l = Ok s ->
   render_page W (as_plain f) l = Ok (strip_sgr s).
 Proof. exact ansi_page_visible_lemma. Qed.
 Print Assumptions ansi_page_visible.
-(* ... hence the visible text of every line is at most W - 1 long *)
-Theorem page_fits_ansi_visible : forall W f l s, is_ansi f -> (1 <= W)%Z -> one_line_labels l -> good_layout l ->
-  render_page W f l = Ok s -> Forall (fun ln => (zlen (strip_sgr ln) <= W - 1)%Z) (split_on 10%N s).
-Proof. exact page_fits_ansi_visible_lemma. Qed.
-Print Assumptions page_fits_ansi_visible.
-(* the help pages: IF the ANSI rendering succeeds THEN the visible text fits - good_layout is asked of the page: it does not
-   follow from the names and descriptions alone (json.dumps of a string default writes backslashes) *)
+(* the help pages: IF the ANSI rendering succeeds THEN the visible text fits - clean_layout is asked of the page *)
 Theorem command_help_fits_ansi_visible : forall W f sty app_name ch aliases help subs s,
   is_ansi f -> (1 <= W)%Z ->
   (match app_name with Some n => no_nl n | None => True end) -> Forall no_nl (chain_names ch) ->
   Forall arg_one_line (chain_args ch) -> Forall opt_one_line (own_opts ch) -> Forall opt_one_line (base_opts ch) ->
   Forall sub_one_line subs ->
-  good_layout (command_page sty app_name ch aliases help subs) ->
+  clean_layout (command_page sty app_name ch aliases help subs) ->
   render_page W f (command_page sty app_name ch aliases help subs) = Ok s ->
   Forall (fun ln => (zlen (strip_sgr ln) <= W - 1)%Z) (split_on 10%N s).
 Proof.
   intros W f sty app_name ch aliases help subs s Hk HW H1 H2 H3 H4 H5 H6 Hg Hs.
-  eapply page_fits_ansi_visible_lemma; [exact Hk|exact HW|apply command_page_one_line; eassumption|exact Hg|exact Hs].
+  eapply page_fits_ansi_clean_lemma; [exact Hk|exact HW|apply command_page_one_line; eassumption|exact Hg|exact Hs].
 Qed.
 Print Assumptions command_help_fits_ansi_visible.
 Theorem application_help_fits_ansi_visible : forall W f sty app_name display version gopts cmds help s,
   is_ansi f -> (1 <= W)%Z ->
   (match app_name with Some n => no_nl n | None => True end) -> Forall opt_one_line gopts ->
   Forall (fun c => no_nl (ac_name c)) cmds ->
-  good_layout (application_page sty app_name display version gopts cmds help) ->
+  clean_layout (application_page sty app_name display version gopts cmds help) ->
   render_page W f (application_page sty app_name display version gopts cmds help) = Ok s ->
   Forall (fun ln => (zlen (strip_sgr ln) <= W - 1)%Z) (split_on 10%N s).
 Proof.
   intros W f sty app_name display version gopts cmds help s Hk HW H1 H2 H3 Hg Hs.
-  eapply page_fits_ansi_visible_lemma; [exact Hk|exact HW|apply application_page_one_line; eassumption|exact Hg|exact Hs].
+  eapply page_fits_ansi_clean_lemma; [exact Hk|exact HW|apply application_page_one_line; eassumption|exact Hg|exact Hs].
 Qed.
 Print Assumptions application_help_fits_ansi_visible.
 Theorem strip_sgr_line_by_line : forall s, split_on 10%N (strip_sgr s) = map strip_sgr (split_on 10%N s).
@@ -728,11 +738,35 @@ Proof. vm_compute. reflexivity. Qed.
 Example ex_ansi_fits_applied : forall W s, (1 <= W)%Z -> render_page W ex_ansif ex_tpage = Ok s ->
   Forall (fun ln => (zlen (strip_sgr ln) <= W - 1)%Z) (split_on 10%N s).
 Proof.
-  intros W s HW H. apply (page_fits_ansi_visible W ex_ansif ex_tpage s); [exact I|exact HW| |exact ex_ansi_good|exact H].
+  intros W s HW H. apply (page_fits_ansi_visible W ex_ansif ex_tpage s); [exact I|exact HW| |exact (good_clean _ ex_ansi_good)|exact H].
   apply command_page_one_line; cbn; repeat constructor; try nl_char.
 Qed.
 
-(* REFUTED without the hypothesis on backslashes: the visible text of an ANSI line can be W long.  The label
+(* backslashes in the TEXTS are covered: an argument named like a style (info: the synopsis holds the escaped placeholder
+   \<info>) and a string default with a quote in it (json.dumps writes a backslash before the quote); no backslash in a label *)
+Definition INFO : str := [105;110;102;111]%N.   (* info *)
+Definition ex_quote : hopt :=
+  {| h_o := {| o_long := LEVEL; o_short := Some ([108]%N); o_flags := 8 + 512; o_default := VStr [97;34;98]%N |};
+     h_odesc := Some DESC_FORCE_T; h_vname := INFO |}.
+Definition ex_info_arg : harg := {| h_a := {| a_name := INFO; a_flags := 1; a_default := VNone |}; h_adesc := Some DESC_FILE_T |}.
+Definition ex_bpage : layout :=
+  command_page (f_styles ex_ansif) (Some APP) [{| lv_name := Some SERVER; lv_opts := [ex_quote]; lv_args := [ex_info_arg] |}] [] None [].
+Example ex_ansi_backslash_texts :
+  clean_layoutb ex_bpage = true /\ good_layoutb ex_bpage = false /\
+  elem_text (snd (nth 1 ex_bpage (0%nat, EEmpty))) = [91;45;108;160;92;60;105;110;102;111;62;93;32;92;60;105;110;102;111;62]%N (* [-l \<info>] \<info> *) /\
+  match render_page 30 ex_ansif ex_bpage with
+  | Ok s => forallb (fun l => Nat.leb (length (strip_sgr l)) 29) (split_on 10%N s) && existsb (N.eqb 92) (strip_sgr s)
+  | Err _ => false end = true.
+Proof. vm_compute. repeat split; reflexivity. Qed.
+Example ex_ansi_clean_applied : forall W s, (1 <= W)%Z -> render_page W ex_ansif ex_bpage = Ok s ->
+  Forall (fun ln => (zlen (strip_sgr ln) <= W - 1)%Z) (split_on 10%N s).
+Proof.
+  intros W s HW H. apply (page_fits_ansi_visible W ex_ansif ex_bpage s); [exact I|exact HW| | |exact H].
+  - apply command_page_one_line; cbn; repeat constructor; try nl_char.
+  - apply clean_layoutb_ok. vm_compute. reflexivity.
+Qed.
+
+(* REFUTED without the hypothesis on the labels: the visible text of an ANSI line can be W long.  The label
    <b>x\<c1>y  measured on its own (remove_format, as LabelAlignment does) is  x<c1>y : the tag <b> and the backslash
    are deleted, <c1> is escaped.  Written through the ANSI formatter, the text before the escaped tag and the tag are
    wrapped in the SGR sequences of the open style <b> one by one, the backslash is no longer followed by "<", and
@@ -742,7 +776,7 @@ Qed.
 Definition ex_bsl_layout : layout :=
   [(0, ELab [60;98;62;120;92;60;99;49;62;121]%N (* <b>x\<c1>y *) [97;98;99;100;101;102;32;103;104;105]%N (* abcdef ghi *) 1 true)].
 Example page_fits_ansi_refuted :
-  one_line_labels ex_bsl_layout /\ good_layoutb ex_bsl_layout = false /\
+  one_line_labels ex_bsl_layout /\ clean_layoutb ex_bsl_layout = false /\
   match render_page 14 ex_ansif ex_bsl_layout, render_page 14 ex_plainf ex_bsl_layout with
   | Ok sa, Ok sp => map (fun l => length (strip_sgr l)) (split_on 10%N sa) = [14; 10; 0]
                     /\ map (@length N) (split_on 10%N sp) = [13; 10; 0]
